@@ -9,7 +9,7 @@ from __future__ import annotations
 from harness.framework import exc_name, Infra
 from harness import simradio
 from harness.simradio import SimWorld, SimSpiDev, SimPin, SimTimeout
-from harness.rfsession import hx, unhex, sb, b01, show_radio, show_air, split_ops, pb, opt_int
+from harness.rfsession import hx, unhex, sb, b01, show_radio, show_air, split_ops, pb, opt_int, rf24_call
 
 # one public call of a node: 15 virtual seconds of SPI traffic (the longest legitimate call of any generator is a
 # 2.5 s renew_address()); a call that needs more does not terminate (`exc=DIVERGE`)
@@ -166,6 +166,20 @@ class NetSession:
             return f"{sb(r)} frame={show_frame(frame)}"
         if m == "multicast":
             return sb(node.multicast(unhex(t[1]), int(t[2]), opt_int(t[3])))
+        if m == "rf":            # the RadioMixin pass-throughs, called on the node object itself
+            return rf24_call(node, t[1:])
+        if m in ("enter", "exit"):
+            return rf24_call(node, [m])
+        if m == "available":
+            return sb(node.available())
+        if m == "peek":
+            f = node.peek()
+            return "N" if f is None else show_frame(f)
+        if m == "get":
+            v = getattr(node, t[1])
+            return sb(v) if isinstance(v, bool) else str(int(v))
+        if m == "nsend":
+            return sb(node.send(RF24NetworkHeader(int(t[1]), int(t[2])), unhex(t[3])))
         if m == "set":
             a, v = t[1], t[2]
             if a == "node_address":
